@@ -79,6 +79,15 @@ func NewMapRefSelfSource[T any, U any](m map[string]U, fn func(U, Sourcer[T]) (r
 			out.List[i].V = v
 		}
 	}
+	for _, o := range out.List {
+		seen := map[*Object[string, Ref[T]]]bool{}
+		for cur := o; cur != nil && cur.V != nil; cur = cur.V.Ref() {
+			if seen[cur] {
+				return zero, fmt.Errorf("map key %q: reference cycle", o.Name)
+			}
+			seen[cur] = true
+		}
+	}
 	return out, nil
 }
 
